@@ -58,6 +58,32 @@ PROPS = {
         "assumptions": ASSUME_COMMON + ["input-space exploration executed through the simulator (the property quantifies over inputs; the schedule-dependent part is buffer recycling)",
                                         "with --iplen only the verbatim field and the fields not derived from lengths are checked"],
     },
+    "C12": {
+        "level": "fault_enumeration",
+        "rule": "case = one full command execution (packet scans incl. chunked/VPN/rate-limited, socks scans with 1..100 workers and stalled/flooding/black-holed endpoints) with NIC stalls, NIC error bursts (> 100 errors), slow stdout, duplicated/unsolicited traffic, and Ctrl-C delivered at scheduling step k or at a virtual instant; thorough: 24 base executions x every k in 1..1500 (blocks of run indexes share scenario and schedule), the rest k / t drawn; oracle = no panic, command returns, return within a sound bound after Ctrl-C (items taken after the cancel x (stall + limiter interval)), <= 64 probes after Ctrl-C, stdout = complete records; distinct = (command, cancel step/time, trace hash); non-trivial = Ctrl-C fired before normal completion",
+        "suites": [{"name": "C12-cancel", "quick": 4000, "thorough": 90000, "budget_quick": 100, "budget_thorough": 1800,
+                    "enum": {"what": "every scheduling step 1..1500 of 24 base executions as the Ctrl-C point", "quick": 0, "thorough": 36000}}],
+        "expect_probes": ["cancel-before-first-probe", "cancel-sending", "cancel-exit-delay"],
+        "components": COMPONENTS_CMD,
+        "assumptions": ASSUME_COMMON + ["leaked helper goroutines after the command returned are not alarmed on (the process exits)",
+                                        "the rate limiter is not context-aware: every limiter reservation taken before/after Ctrl-C adds one interval to the bound (observed, documented in DESIGN.md, not a violation of 'bounded')"],
+    },
+    "C15": {
+        "level": "exploration",
+        "rule": "case = one packet or socks scan with --rate N/W (N 1..5000; windows 250us..1m30s, with and without explicit count), workers 1..1000, up to 300 probes, NIC stalls / probe latencies in a share of runs; observed on the virtual clock: entry time of every frame write / dial; oracle = for every window of k consecutive departures span >= (k-1-10)*floor(W/N) - (k-1)ns, in stall-free packet runs also span <= (k-1)*floor(W/N)+k ns (charged once), probe count exact, every reply-shaped frame printed at its arrival instant (receive not slowed); distinct = (command, rate, #probes, trace hash)",
+        "suites": [{"name": "C15-rate", "quick": 2400, "thorough": 40000, "budget_quick": 100, "budget_thorough": 1200}],
+        "expect_probes": ["reply-while-throttled"],
+        "components": COMPONENTS_CMD,
+        "assumptions": ASSUME_COMMON + ["b = 10 is go.uber.org/ratelimit's documented default slack; per chunk (each chunk builds a fresh limiter)", "1 ns per interval tolerance: time.Duration granularity"],
+    },
+    "C16": {
+        "level": "exploration",
+        "rule": "case = one packet scan (all commands, chunked, VPN, NIC stalls) or socks scan with --exit-delay in {default, 1ms .. 30s}; simulated hosts reply with latency uniformly below the delay, some replies beyond it; oracle = each socket (chunk) closes exactly exit-delay after its last frame left (virtual clock: not earlier, not later), the command returns at that instant, every reply-shaped frame delivered before it is printed as a complete record; socks: return >= last connection end + delay, positives printed; distinct = (command, mode, delay, #frames, trace hash)",
+        "suites": [{"name": "C16-exitdelay", "quick": 2400, "thorough": 40000, "budget_quick": 100, "budget_thorough": 1200}],
+        "expect_probes": ["chunked-scan"],
+        "components": COMPONENTS_CMD,
+        "assumptions": ASSUME_COMMON + ["computation costs zero virtual time, so 'bounded time after the delay' is checked as equality on the virtual clock"],
+    },
     "C20": {
         "level": "fault_enumeration",
         "rule": "cases = read-outcome sequences over {F frame, P frame+processor error, A EAGAIN, T timeout net.Error, R ECONNRESET, U unknown, W wrapped temporary, X EOF/EBADF/closed-file}; "
@@ -82,6 +108,12 @@ for _p in PENDING:
         NOT_APPLICABLE.append({"property_id": _p, "reason": "check under construction in this session - not claimed yet (planned in DESIGN.md section 4)"})
 
 MANIFEST_TEXT = {
+    "C12": {"text": "Ctrl-C is injected into full command executions at a chosen scheduling step or virtual instant, while stalls, error bursts, rate limits and slow consumers keep buffers full or empty. The thorough tier enumerates every step 1..1500 of 24 base executions as the cancel point; otherwise cancel points are drawn. Oracles: no panic (send on closed channel, double close), the command returns, it returns within a sound bound, few probes after the cancel, stdout is a sequence of complete records.",
+            "note": "Crash points are scheduler steps of the instrumented program (every channel op / select / go / close / cancel / lock / I/O seam). Leaks after return are not alarmed on."},
+    "C15": {"text": "Departure times of every probe are read on the virtual clock, so the spacing bound with the limiter's documented slack is checked exactly over every window of consecutive probes, as is charge-once (upper bound in stall-free runs) and that replies are printed at their arrival instant while sending is throttled.",
+            "note": "Real go.uber.org/ratelimit on the fake clock; sampled rates and probe counts."},
+    "C16": {"text": "On the virtual clock the lifetime of every socket and of the command is compared with the departure of the last probe: equal to the exit delay, per chunk; replies arriving within the delay are printed. Delays 1 ms .. 30 s cost nothing to simulate.",
+            "note": "Sampled scenarios; application scans covered for socks."},
     "C03": {"text": "Full packet-scan commands run against a simulated network that answers probes and injects unsolicited traffic; each frame passes through the real libpcap-compiled filter (executed by x/net/bpf), the real receiver, processor, result channel and logger. The records printed are compared as a multiset with the records an independent classifier derives from the bytes of every frame offered to the socket before the exit instant. All 512 TCP flag sets are enumerated as unsolicited frames for SYN and FIN scans.",
             "note": "Kernel BPF replaced by the x/net/bpf VM on the same program; sampled scenarios; no fragments/malformed frames (C06)."},
     "C05": {"text": "Every frame written in generated scans is decoded by an independent strict codec and compared with the requested fields (MACs, addresses, ports, flag set, TTL, IP flags, protocol/length overrides verbatim, ICMP type/code, payload, checksums, padding). All 511 non-empty --flags subsets are enumerated; other option values are sampled.",
